@@ -13,6 +13,7 @@ from symfc.utils.permutation_tools import (
 from symfc.utils.solver_funcs import get_batch_slice
 from symfc.utils.utils import get_indep_atoms_by_lat_trans
 from symfc.utils.utils_O3 import get_atomic_lat_trans_decompr_indices_O3
+from symfc.utils._verif_hooks import _verif_override
 
 
 def _N3N3N3_to_NNNand333(combs: np.ndarray, N: int) -> np.ndarray:
@@ -74,6 +75,7 @@ def compr_permutation_lat_trans_O3(
 
     if n_batch is None:
         n_batch = 1 if natom <= 128 else int(round((natom / 128) ** 2))
+    n_batch = _verif_override("PERM_NBATCH", n_batch)
 
     perm_decompr_idx = np.ones(NNN27 // n_lp, dtype="int") * -1
     indep_atoms = get_indep_atoms_by_lat_trans(trans_perms)
